@@ -30,10 +30,23 @@ def records_of_case(c):
             if not m:
                 continue
             q = QMAP.get(m.group(2) or "", None)
-            if q is None or q == "$":
-                continue
             val = var["val"]
             vals = val.get("elems", []) if val.get("t") == "A" else [val]
+            # fields of records (and of elements of arrays of records) whose name tells their type: FI, FL, FS, FD
+            more = []
+            for x in vals:
+                if x.get("t") == "U":
+                    for fl in x.get("fields", []):
+                        fq = {"FI": "I", "FL": "L", "FS": "S", "FD": "D"}.get(str(fl.get("name", "")).upper())
+                        if fq:
+                            more.append((fq, fl["value"]))
+            for fq, fv in more:
+                r = num_record(fq, fv)
+                if r is not None:
+                    key = (r["q"], r["tag"], r["whole"], r["finite"], r["v"], r["f"] if not r["whole"] else "", r["sx"])
+                    out.setdefault(key, (r, m.group(1) + "." + fq))
+            if q is None or q == "$":
+                continue
             for x in vals:
                 r = num_record(q, x)
                 if r is None:
